@@ -141,8 +141,8 @@ class Effects:
                 elif isinstance(n, ast.AugAssign):
                     tgts, v = [n.target], self.value(f, env, vals, n.value).join(self.value(f, env, vals, _load(n.target)))
                 elif isinstance(n, (ast.For, ast.comprehension)):
-                    it = self.value(f, env, vals, n.iter)
-                    tgts, v = [n.target], it.child()
+                    changed |= self._bind_iter(f, env, vals, n.target, n.iter)
+                    continue
                 elif isinstance(n, ast.With):
                     for item in n.items:
                         if item.optional_vars is not None:
@@ -182,6 +182,22 @@ class Effects:
         self._vals_cache = getattr(self, "_vals_cache", {})
         self._vals_cache[fkey(f)] = vals
         return summ
+
+    def _bind_iter(self, f, env, vals, target, it_expr) -> bool:
+        """Bind a loop / comprehension target to the elements of the iterable; zip and enumerate are bound column by column
+        (the first name of `for a, b in zip(xs, ys)` only ever holds elements of xs)."""
+        if isinstance(it_expr, ast.Call) and isinstance(it_expr.func, ast.Name) and not it_expr.keywords \
+                and not any(isinstance(a, ast.Starred) for a in it_expr.args) and isinstance(target, (ast.Tuple, ast.List)) \
+                and not any(isinstance(t, ast.Starred) for t in target.elts) and it_expr.func.id not in vals:
+            if it_expr.func.id == "zip" and len(target.elts) == len(it_expr.args):
+                ch = False
+                for t, a in zip(target.elts, it_expr.args):
+                    ch |= self._bind_iter(f, env, vals, t, a)
+                return ch
+            if it_expr.func.id == "enumerate" and len(target.elts) == 2 and len(it_expr.args) >= 1:
+                ch = self._bind(vals, target.elts[0], SCALAR)
+                return self._bind_iter(f, env, vals, target.elts[1], it_expr.args[0]) or ch
+        return self._bind(vals, target, self.value(f, env, vals, it_expr).child())
 
     def _bind(self, vals, target, v: Val) -> bool:
         if isinstance(target, ast.Name):
